@@ -75,7 +75,7 @@ class NetMask(Resource):
     def make_netmask(cls, string: str | int, afi: AFI) -> NetMask:
         if afi == AFI.ipv4:
             if isinstance(string, str) and string in cls.codes:
-                klass = cls(cls.codes[string])
+                klass = int.__new__(cls, cls.codes[string])
                 klass.maximum = 32
                 return klass
             maximum = 32
@@ -93,6 +93,9 @@ class NetMask(Resource):
         if value < 0 or value > maximum:
             raise ValueError('invalid netmask {}'.format(string))
 
-        klass = cls(value)
+        # not cls(value): Resource caches one instance per value, and 'maximum' is set on the instance, so
+        # an IPv6 /32 met later turned every IPv4 /32 already parsed into a mask out of 128 bits (a
+        # neighbor 127.0.0.1 became a 2^96 address range and its configuration was refused)
+        klass = int.__new__(cls, value)
         klass.maximum = maximum
         return klass
